@@ -47,7 +47,9 @@ def fits_pdb(rows):
     return True
 
 
-def emit_pdb(rows, models=True, ter=True, end=True):
+def emit_pdb(rows, models=True, ter=True, end=True, end_after_each_model=False):
+    """end_after_each_model: every model is closed by ENDMDL + END (frames of a trajectory / complete single-model
+    entries concatenated into one file)."""
     out = []
     last_model = None
     last_chain = None
@@ -58,6 +60,8 @@ def emit_pdb(rows, models=True, ter=True, end=True):
                 if ter and last is not None:
                     out.append(_ter(last))
                 out.append("ENDMDL".ljust(80))
+                if end_after_each_model:
+                    out.append("END".ljust(80))
             out.append(f"MODEL     {r['model']:>4}".ljust(80))
             last_model = r["model"]
             last_chain = None
@@ -97,7 +101,8 @@ def charge_to_cif(c):
     return c
 
 
-def emit_cif(rows, null="?", nulls=None, extra_cats=None, name="vmon", label_seq="index", drop_cols=(), label_asym="auth"):
+def emit_cif(rows, null="?", nulls=None, extra_cats=None, name="vmon", label_seq="index", drop_cols=(), label_asym="auth", col_order=None, decimals=3):
+    # col_order: a permutation of CIF_COLS (mmCIF does not prescribe an item order); decimals: coordinate precision
     """nulls: optional {column: marker} overriding the default null marker.
     label_asym="wide": label_asym_id is a two-character id (as in entries with more than 26 asym units)
     and label_seq_id is offset beyond 9999, while the author identifiers are the table's own."""
@@ -129,15 +134,15 @@ def emit_cif(rows, null="?", nulls=None, extra_cats=None, name="vmon", label_seq
             "group_PDB": r["rec"], "id": str(r["serial"]), "type_symbol": nv("type_symbol", r["element"]), "label_atom_id": r["name"],
             "label_alt_id": nv("label_alt_id", r["alt"]), "label_comp_id": r["resname"], "label_asym_id": nv("label_asym_id", lasym),
             "label_entity_id": "1", "label_seq_id": lseq, "pdbx_PDB_ins_code": nv("pdbx_PDB_ins_code", r["icode"]),
-            "Cartn_x": f"{r['x']:.3f}", "Cartn_y": f"{r['y']:.3f}", "Cartn_z": f"{r['z']:.3f}",
+            "Cartn_x": f"{r['x']:.{decimals}f}", "Cartn_y": f"{r['y']:.{decimals}f}", "Cartn_z": f"{r['z']:.{decimals}f}",
             "occupancy": nv("occupancy", None if r["occ"] is None else f"{r['occ']:.2f}"),
             "B_iso_or_equiv": nv("B_iso_or_equiv", None if r["b"] is None else f"{r['b']:.2f}"),
             "pdbx_formal_charge": nv("pdbx_formal_charge", charge_to_cif(r["charge"])),
             "auth_seq_id": str(r["resseq"]), "auth_comp_id": r["resname"], "auth_asym_id": nv("auth_asym_id", r["chain"] if (r["chain"] or "").strip() else None),
             "auth_atom_id": r["name"], "pdbx_PDB_model_num": str(r["model"]),
         }
-        table.append([vals[c] for c in CIF_COLS if c not in drop_cols])
-    cols = [c for c in CIF_COLS if c not in drop_cols]
+        table.append([vals[c] for c in (col_order or CIF_COLS) if c not in drop_cols])
+    cols = [c for c in (col_order or CIF_COLS) if c not in drop_cols]
     cats = list(extra_cats or []) + [("atom_site", cols, table, "loop")]
     return ciftok.emit(name, cats)
 
